@@ -75,7 +75,7 @@ class Clause:
     assumptions: list = field(default_factory=list)
 
     def as_dict(self):
-        d = {k: v for k, v in self.__dict__.items() if v not in ("", None, [], 0, 0.0) or k in ("status",)}
+        d = {k: v for k, v in self.__dict__.items() if not k.startswith("_") and (v not in ("", None, [], 0, 0.0) or k in ("status",))}
         return d
 
 
